@@ -303,6 +303,17 @@ pub fn kill(pid: u32, signal: i32) -> Result<()> {
 pub const F_GETFD: i32 = libc::F_GETFD;
 pub const F_SETFD: i32 = libc::F_SETFD;
 pub const FD_CLOEXEC: i32 = libc::FD_CLOEXEC;
+pub const F_DUPFD_CLOEXEC: i32 = libc::F_DUPFD_CLOEXEC;
+
+/// Returns `f` if its descriptor is above the three standard ones, otherwise
+/// a close-on-exec duplicate that is (the original descriptor is closed).
+pub fn above_stdio(f: File) -> Result<File> {
+    if f.as_raw_fd() > 2 {
+        return Ok(f);
+    }
+    let fd = fcntl(f.as_raw_fd(), F_DUPFD_CLOEXEC, Some(3))?;
+    Ok(unsafe { File::from_raw_fd(fd) })
+}
 
 pub fn fcntl(fd: i32, cmd: i32, arg1: Option<i32>) -> Result<i32> {
     check_err(unsafe {
